@@ -99,6 +99,12 @@ func VH_C06_TamperAfterSigning() {
 	// certificate chains of 1..3 certificates: the first signer's chain has 1..2 (thorough 1..3) certificates, the
 	// second signer's 1 (thorough 1..2) - the authority index of a later subset must skip earlier chains
 	nauth := 0
+	// the second signer's leaf is either a certificate with its own key, or ANOTHER certificate for the first
+	// signer's key (a renewed certificate): authorities are certificates, not keys (seed C06-4)
+	whichOf := []int{0, 1}
+	if nsigners == 2 && vh.Choose(2) == 1 {
+		whichOf[1] = 2
+	}
 	for i := 0; i < nsigners; i++ {
 		cl := 1
 		if i == 0 {
@@ -106,12 +112,12 @@ func VH_C06_TamperAfterSigning() {
 		} else if vh.Tier() == 1 {
 			cl = 1 + vh.Choose(2)
 		}
-		c06SignN(b, i, cl)
+		c06SignN(b, whichOf[i], cl)
 		nauth += cl
 	}
 	vh.Assert(len(b.Signatures.VouchedSubsets) == nsigners && len(b.Signatures.Authorities) == nauth, "one vouched subset per signer, one authority per certificate")
 	for i, vs := range b.Signatures.VouchedSubsets {
-		chain, _ := c06Chain(i)
+		chain, _ := c06Chain(whichOf[i])
 		vh.Assert(vs.Authority < uint64(len(b.Signatures.Authorities)) && bytes.Equal(b.Signatures.Authorities[vs.Authority].Cert.Raw, chain[0].Cert.Raw), "each vouched subset points at its own signer's leaf certificate")
 	}
 	var w vh.Sink
